@@ -345,26 +345,24 @@ static void check_req_heads(void)
 	MC_COUNT("oracle_ids_req_heads");
 }
 
-static void check_wire_ids(struct dnse_msg *m, int n)
+/* wire view, taken at the moment evdns hands a datagram to sendto(): its id must belong to
+ * exactly one in-flight request, and that request must ask the datagram's question */
+static void on_udp_send(int ns, const void *pkt, int len)
 {
-	for (int a = 0; a < n; a++) {
-		if (!m[a].decoded) { mc_fail("C34/undecodable-query", "ns%d got %d bytes that do not decode as a query", m[a].ns, m[a].len); continue; }
-		for (int b = a + 1; b < n; b++)
-			if (m[b].decoded && m[a].q.id == m[b].q.id &&
-			    (m[a].q.qtype != m[b].q.qtype || !dm_name_eq(m[a].q.qname, m[b].q.qname)))
-				mc_fail("C34/id-shared/wire", "queries %s/%d and %s/%d carry the same id %#x", m[a].q.qname, m[a].q.qtype, m[b].q.qname, m[b].q.qtype, m[a].q.id);
-		if (base_alive) {
-			int k; struct request *rq = inflight_by_id(m[a].q.id, &k);
-			if (rq) {
-				struct dm_query own;
-				if (dm_parse_query(rq->request, (int)rq->request_len, &own) == 0 &&
-				    (own.qtype != m[a].q.qtype || !dm_name_eq(own.qname, m[a].q.qname)))
-					mc_fail("C34/id-shared/wire", "query %s/%d on the wire has id %#x of in-flight request %s/%d",
-					    m[a].q.qname, m[a].q.qtype, m[a].q.id, own.qname, own.qtype);
-				MC_COUNT("oracle_ids_wire");
-			}
-		}
-	}
+	struct dm_query q, own; int k;
+	if (!base_alive || !dbase) return;
+	if (dm_parse_query(pkt, len, &q) < 0 || !q.wellformed) { mc_fail("C34/undecodable-query", "evdns sent %d bytes to ns%d that do not decode as a standard query", len, ns); return; }
+	struct request *rq = inflight_by_id(q.id, &k);
+	if (k != 1) mc_fail(k ? "C34/id-shared/wire" : "C34/id-unknown/wire", "query %s/%d with id %#x goes out while %d in-flight requests own that id", q.qname, q.qtype, q.id, k);
+	else if (dm_parse_query(rq->request, (int)rq->request_len, &own) == 0 && (own.qtype != q.qtype || !dm_name_eq(own.qname, q.qname)))
+		mc_fail("C34/id-shared/wire", "query %s/%d on the wire has id %#x of in-flight request %s/%d", q.qname, q.qtype, q.id, own.qname, own.qtype);
+	MC_COUNT("oracle_ids_wire");
+}
+
+static void check_decodable(struct dnse_msg *m, int n)
+{
+	for (int a = 0; a < n; a++)
+		if (!m[a].decoded) mc_fail("C34/undecodable-query", "ns%d got %d bytes that do not decode as a query", m[a].ns, m[a].len);
 }
 
 /* ------------------------------------------------------------------ nameserver script */
@@ -590,9 +588,9 @@ static void body(void)
 	mc_observe("cfg{set=%d ns=%d inflight=%d attempts=%d rng=%d} ", rs, nns, mi, attempts, rngmode);
 
 	/* ---- fresh world ---- */
-	vclock_reset(); vclock_idle_hook = idle_hook; vclock_block_hook = NULL; vclock_postwait_hook = postwait;
+	vclock_reset(); vclock_idle_hook = idle_hook; vclock_block_hook = NULL; vclock_postwait_hook = postwait; dnse_udp_send_hook = on_udp_send;
 	dnse_ns_begin(); dnse_rng_reset(rngmode); dnse_watch_reset();
-	live0 = dnse_alloc_live(); fd0 = mcx_fd_signature();
+	live0 = dnse_alloc_live();
 	memset(reqs, 0, sizeof reqs); nreqs = RS->n; nlate = 0; memset(late, 0, sizeof late);
 	memset(ns_mode, 0, sizeof ns_mode);
 	acts_left = mc_param("acts", 1); idle_flag = 0; freed_fail = 0; in_user_cb = 0;
@@ -624,7 +622,7 @@ static void body(void)
 		io_passes();
 		check_req_heads();
 		int n = dnse_ns_collect(msgs, 24);
-		if (n) check_wire_ids(msgs, n);
+		if (n) check_decodable(msgs, n);
 		user_action(NULL);
 		if (!base_alive) break;
 		if (n) {
@@ -704,7 +702,10 @@ static void body(void)
 		if (dnse_alloc_live() != live0) mc_fail("C34/leak", "%ld allocation(s) still live after evdns_base_free + event_base_free", dnse_alloc_live() - live0);
 		MC_COUNT("oracle_leak");
 	}
-	if (mcx_fd_signature() != fd0) mc_fail("C34/fd-leak", "fd table differs from the baseline");
+	if (mcx_fd_signature() != fd0) {
+		mc_fail("C34/fd-leak", "fd table differs from the baseline");
+		if (mc_replaying()) { fflush(stdout); if (system("ls -l /proc/$PPID/fd") < 0) {} }
+	}
 	if (dnse_spins) { MC_COUNTN("net_waits", (uint64_t)dnse_spins); dnse_spins = 0; }
 }
 
@@ -713,6 +714,7 @@ static void init(void)
 	dnse_alloc_install();
 	event_set_log_callback(logcb);
 	if (dnse_ns_init() < 0) abort();
+	fd0 = mcx_fd_signature();        /* the same for every execution unless one leaks (then it fails) */
 }
 
 int main(int argc, char **argv)
